@@ -185,6 +185,8 @@ def run(ck: Check):
             ck.mismatch(c.split()[0], c, m, i)
     ck.sample({"op": cases[1000] if len(cases) > 1000 else cases[0],
                "model": model[1000] if len(cases) > 1000 else model[0]})
+    from scale import big_rmslice
+    big_rmslice(ck)
     return ck.finish(
         level="proof", rule=RULE,
         assumptions=["aliasing/object identity of copy() is outside the functional model; it is "
